@@ -460,6 +460,7 @@ class Zone(dataflow.Client):
         if hasattr(contracts, "bind"):
             contracts.bind(model)
         self.contract = contracts.get(fn.q, len(fn.params)) or Contract()
+        self._static_getters = None
         self.assume_entry = assume_entry or []
         self.pnames = {p["d"]: p["n"] for p in fn.params}
         self.pinfo = {p["n"]: p for p in fn.params}
@@ -1218,6 +1219,14 @@ class Zone(dataflow.Client):
             if bt:
                 st.flags[g(fg)] = (((g(getter), bt, 0),), (), frozenset([g(getter), bt]))
 
+    def is_static_getter(self, term):
+        """g:this|Name(): Name is a static member function without parameters of the analysed class -- a compile-time quantity
+        (MaxIndex(), TypeWidth()) that no call can change"""
+        if self._static_getters is None:
+            self._static_getters = set(g.name for g in self.model.functions if g.cls == self.fn.cls and g.is_static and not g.params) if self.fn.cls else set()
+        nm = term[len("g:this|"):]
+        return nm.endswith("()") and nm[:-2] in self._static_getters
+
     def call_effects(self, st, nid):
         fn = self.fn
         n = fn.nodes[nid]
@@ -1292,9 +1301,9 @@ class Zone(dataflow.Client):
                     if self.fields_written_by is not None and nm:
                         written = self.fields_written_by(nm, len(args))
                     if written is not None:
-                        st.kill_prefix(lambda t: (t.startswith("f:") and t[2:] in written) or t.startswith("g:this|"))
+                        st.kill_prefix(lambda t: (t.startswith("f:") and t[2:] in written) or (t.startswith("g:this|") and not self.is_static_getter(t)))
                     else:
-                        st.kill_prefix(lambda t: t.startswith("f:") or t.startswith("g:this|"))
+                        st.kill_prefix(lambda t: t.startswith("f:") or (t.startswith("g:this|") and not self.is_static_getter(t)))
                 return
             rs = fn.strip(r)
             rn = fn.nodes[rs]
@@ -1305,7 +1314,7 @@ class Zone(dataflow.Client):
             if is_const or simple in PURE_GETTERS or simple in ("IsEmpty", "IsNotEmpty", "First", "Storage", "Last", "End"):
                 return
             if rn["k"] == "CXXThisExpr":
-                st.kill_prefix(lambda t: t.startswith("f:") or t.startswith("g:this|"))
+                st.kill_prefix(lambda t: t.startswith("f:") or (t.startswith("g:this|") and not self.is_static_getter(t)))
                 return
             rt = self.term_of(rs)
             txt = fn.text(rs)
